@@ -57,6 +57,7 @@ def _run_hypothesis_shard(sub, tier, seed, shard, n_cases):
 
     def body(case):
         last["case"] = case
+        rec.evaluations += 1
         try:
             info = sub.check(case)
         finally:
@@ -88,13 +89,15 @@ def _run_enum_shard(sub, tier, seed, shard, nshards):
         if idx % nshards != shard:
             continue
         n += 1
+        if callable(case):          # lazy case construction: only the owning shard pays for it
+            case = case()
+        rec.evaluations += 1
         try:
             try:
                 info = sub.check(case)
             finally:
                 env.clean_proc_tmp()
         except PropertyViolation as exc:
-            rec.evaluations += 1
             if exc.cls not in seen_cls:      # keep the first (smallest index) per class
                 seen_cls.add(exc.cls)
                 failures.append({"cls": exc.cls, "clause": exc.clause,
